@@ -29,7 +29,8 @@ for _p in ['C%02d' % i for i in range(1, 21)]:
     NOT_APPLICABLE.setdefault(_p, _NOT_YET)
 
 PROPS['C05'] = {
-    'units': ['tree', 'lex'],
+    'units': ['tree', 'lex', 'front'],
+    'functions': {'front': ['parse_hctl_formula', 'parse_extended_formula']},
     'level_text': ('Proof, for all character sequences and all token sequences of any length, that (i) the tokenizer returns exactly the token '
                    'sequence of the declarative token language of spec/lex.rs (maximal runs of name characters classified afterwards, whitespace '
                    'anywhere, long and short operator spellings, wild-cards / domains only in extended mode) or an error, and (ii) the parser accepts '
@@ -156,4 +157,19 @@ PROPS['C06'] = {
     'level_note': 'Trusted: Verus/Z3, format! = concatenation of Display renderings (R-fmt-val), Display tables, derive(Clone). Heights below 2^32.',
     'explanation': 'wf(node) is a postcondition of every constructor and (through `agrees`) of every parse_k; render/s_height are written from the statement in spec/syntax.rs.',
     'trusted': ['R-fmt-val / Display tables (spec/syntax.rs)'],
+}
+
+PROPS['C07'] = {
+    'units': ['front', 'tree', 'lex'],
+    'functions': {'front': ['validate_and_rename_recursive', 'validate_props_and_rename_vars', 'parse_and_minimize_hctl_formula', 'parse_and_minimize_extended_formula'],
+                  'tree': ['mk_hybrid', 'mk_unary', 'mk_binary', 'mk_variable', 'mk_atom'], 'lex': []},
+    'level_text': ('Proof that validate_and_rename_recursive / validate_props_and_rename_vars return Ok exactly when the tree is well scoped (every '
+                   'variable occurrence, jump targets included, inside a quantifier for it; no re-quantification inside its own scope; every proposition '
+                   'a network variable) and Err otherwise, that the result is internally consistent and equals rename_spec (quantifier at nesting depth '
+                   'd named x^d), with proved lemmas: the result is alpha-equivalent to the input (lemma_rename_alpha), preprocessing a preprocessed tree '
+                   'is accepted and changes nothing (lemma_rename_idempotent). The string entry points parse_and_minimize_* are proved to compose '
+                   'tokenizer, parser and renamer (Ok/Err exactly when each stage accepts).'),
+    'level_note': 'Trusted: Verus/Z3, vstd HashMap/String specs + String key model and &str-borrow axioms (prelude/std_model.rs), SymbolicContext::find_network_variable as an uninterpreted table prop_index, constructors proved in unit tree. Formulae shorter than 2^32 characters.',
+    'explanation': 'spec/rename.rs: well_scoped, rename_spec, alpha_eq written from the statement; mview = view of the exec HashMap<String,String> as a map on character sequences.',
+    'trusted': ['prelude/std_model.rs axioms (String key model, string extensionality, &str borrow)', 'HashMap::clone specified up to extensional equality of the view'],
 }
